@@ -3103,6 +3103,16 @@ def replace_collection_add_update_with_collection_literal(source: str) -> str:
         core.walk_sequence(root, *template, expand_last=True)
     ):
         assigned_value = node.root.value
+        target_name = ast.Name(id=node.root.targets[0].id)
+        # x = [a]; x.append(x[0]) reads the collection that is being built
+        matches = list(
+            itertools.takewhile(
+                lambda m: not any(True for arg in m[0].value.args for _ in core.walk(arg, target_name)),
+                matches,
+        ))
+        if not matches:
+            continue
+
         other_elts = []
         for m in matches:
             if m[0].value.func.attr in {"append", "add"}:
